@@ -198,3 +198,15 @@ theorem whileE_invariant {σ} (g : σ → Bool) (b : σ → Except Err σ) (P : 
         exact ih s1 s' (step s s1 hP hg hbs) hr
 
 end Exetera
+
+namespace Exetera
+
+/-- a state that the body maps to itself with the guard true is never left: no fuel suffices -/
+theorem whileE_fixpoint {σ} (g : σ → Bool) (b : σ → Except Err σ) (s : σ) (hg : g s = true) (hb : b s = .ok s) :
+    ∀ n, whileE g b n s = .error .outOfFuel := by
+  intro n
+  induction n with
+  | zero => simp [whileE, hg]
+  | succ n ih => simp [whileE, hg, hb, ih]
+
+end Exetera
